@@ -271,6 +271,16 @@ def _revkey(m):
     return tuple(sorted(((s, e) for s, e in m), reverse=True))
 
 
+def _is01(p):
+    """p is the constant 0 or 1, or a single ite atom with values 1 / 0"""
+    if p.is_const():
+        return p.const_value() in (0, 1)
+    syms = list(p.symbols())
+    if len(syms) == 1 and syms[0].startswith("ite[") and (p == Poly.sym(syms[0])) and re.search(r"\|(1\|0|0\|1)\]$", syms[0]):
+        return True
+    return False
+
+
 class Evaluator:
     def __init__(self, funcs, structs):
         self.funcs, self.structs = funcs, structs
@@ -362,6 +372,15 @@ class Evaluator:
                 if not b.is_const():
                     raise Inconclusive("shl by non-constant")
                 r = a * (2 ** int(b.const_value()))
+            elif op == "lshr" and ty == "i64" and b.is_const() and b.const_value() == 63:
+                # the sign bit of a 64-bit value (how the optimiser writes x < 0)
+                sg = sign(a, signs)
+                if sg in (POS, NONNEG, ZERO):
+                    r = Poly.const(0)
+                elif sg == NEG:
+                    r = Poly.const(1)
+                else:
+                    r = atom("ite", "slt %r , 0" % a, Poly.const(1), Poly.const(0))
             elif op in ("ashr", "lshr"):
                 if not b.is_const():
                     raise Inconclusive("shr by non-constant")
@@ -377,6 +396,12 @@ class Evaluator:
                 r = sdiv(a, b, signs)
             elif op in ("srem", "urem"):
                 r = a - b * sdiv(a, b, signs)
+            elif op == "xor" and b.is_const() and b.const_value() == -1:
+                r = -a - 1                        # bitwise complement in two's complement
+            elif op == "xor" and b.is_const() and b.const_value() == 1 and _is01(a):
+                r = Poly.const(1) - a            # logical negation of a value known to be 0 or 1 (a widened comparison result)
+            elif op == "xor" and a.is_const() and a.const_value() == 1 and _is01(b):
+                r = Poly.const(1) - b
             else:
                 raise Inconclusive("integer %s" % op)
             env[dst] = r
